@@ -368,6 +368,44 @@ class C15(core.Check):
                     P.value('k=sma(%K)', k, rk, s, kw, 100.0)
                     P.value('d=sma(k)', d, R.sma_of(rk, sd), s, kw, 100.0)
                     P.holds('range', '0<=k,d<=100', all(not (v < -1e-7 or v > 100 + 1e-7) for v in k + d), 'out of range', s, kw)
+            # STAGES: each smoothing stage uses its OWN moving-average knob: the result with (matype_a, matype_b) is the
+            # composition of jesse's own ma() (itself covered by the `ma` clauses) with those two types over the textbook raw
+            # series — for every pair of different types, which is where a knob routed to the wrong stage shows
+            import numpy as np
+            nanarr = lambda xs: np.array([float('nan') if v is None else v for v in xs], dtype=float)
+            pairs = [(0, 2), (2, 0), (1, 0), (0, 1), (2, 1)] + ([(3, 0), (0, 3), (1, 2)] if big else [])
+            for (mk, md) in pairs:
+                for s in series[:4 if not big else len(series)]:
+                    fk, sk, sd = r.choice([(14, 3, 3), (5, 2, 4), (9, 3, 5)])
+                    raw = nanarr(R.stoch_raw(s.h, s.l, s.cl, fk))
+                    try:
+                        ek = ta['ma'](raw, period=sk, matype=mk, sequential=True)
+                        ed = ta['ma'](ek, period=sd, matype=md, sequential=True)
+                    except Exception:  # noqa
+                        continue
+                    opt = lambda a: [None if v != v else float(v) for v in a]
+                    for name, kw, fields_ in (
+                            ('stoch', {'fastk_period': fk, 'slowk_period': sk, 'slowk_matype': mk, 'slowd_period': sd, 'slowd_matype': md},
+                             (('k', ek), ('d', ed))),
+                            ('kdj', {'fastk_period': fk, 'slowk_period': sk, 'slowk_matype': mk, 'slowd_period': sd, 'slowd_matype': md},
+                             (('k', ek), ('d', ed), ('j', 3 * ek - 2 * ed)))):
+                        st_, out = indlib.call(ta[name], s.c, True, kw)
+                        if st_ != 'ok':
+                            P.add('definition', 'value', 'raises: ' + out, s, kw)
+                            continue
+                        for fname, exp in fields_:
+                            P.value(f'{name} {fname}: stage smoothed with its own matype', field(out, fname), opt(exp), s, kw, 100.0, rel=1e-7)
+                    # mab: the fast and the slow average each use their own knob
+                    fp, sp = r.choice([(10, 50), (5, 20)])
+                    kw = {'fast_period': fp, 'slow_period': sp, 'fast_matype': mk, 'slow_matype': md}
+                    st_, out = indlib.call(ta['mab'], s.c, True, kw)
+                    if st_ == 'ok':
+                        try:
+                            ef = ta['ma'](np.array(s.cl, dtype=float), period=fp, matype=mk, sequential=True)
+                        except Exception:  # noqa
+                            ef = None
+                        if ef is not None:
+                            P.value('mab middleband: the fast average with fast_matype', field(out, 'middleband'), opt(ef), s, kw, s.scale, rel=1e-7)
             for (fk, fd) in [(5, 3), (14, 2)] + [(r.randint(2, 60), r.randint(1, 10)) for _ in range(6 if big else 2)]:
                 for s in series:
                     kw = {'fastk_period': fk, 'fastd_period': fd}
